@@ -186,6 +186,9 @@ def run(ctx, canary=False):
             if ret > 0:
                 implied = delta_indep(ret, eps)
                 rel.append(("sound: implied delta <= target", "leq", mlog(implied), mlog(delta), 2))
+                # the bisection invariant, exact: the returned end is the one at which the implementation's own bound met the target
+                rel.append(("sound (exact, implementation's own bound): cdp_delta(returned rho, eps) <= delta", "leq",
+                            0 if cdp.cdp_delta(ret, eps) <= delta else 1, 0, 0))
                 rel.append(("Gaussian exact delta <= implied delta", "leq", mlog(gauss_delta(ret, eps)), mlog(implied), 2))
                 up = delta_indep(ret * (1 + 1e-6) + 1e-300, eps)
                 rel.append(("tight: a slightly larger budget violates the target", "leq", mlog(delta), mlog(up), 5))
@@ -197,6 +200,8 @@ def run(ctx, canary=False):
             if ret > 0:
                 implied = delta_indep(rho, ret)
                 rel.append(("sound: implied delta <= target", "leq", mlog(implied), mlog(delta), 2))
+                rel.append(("sound (exact, implementation's own bound): cdp_delta(rho, returned eps) <= delta", "leq",
+                            0 if cdp.cdp_delta(rho, ret) <= delta else 1, 0, 0))
                 if ret > 1e-12:
                     dn = delta_indep(rho, ret * (1 - 1e-6))
                     rel.append(("tight: a slightly smaller epsilon violates the target", "leq", mlog(delta), mlog(dn), 5))
